@@ -10,6 +10,7 @@
       consistent v g                 synced, register = g, 16 history bytes, hist_pos < 128, hist_count = popcount(window)
       sparse es                      no prefix of the error pattern es has 25 errors among its last (<=128) bits *)
 From Coq Require Import NArith List Bool.
+From M17 Require Import ImplFrameDecoder FrameDecoderInst LemmasFD_Inst LemmasBertChain.
 From M17 Require Import Bits ConstsPrbs ImplPRBS SpecPRBS LemmasPRBS_A LemmasPRBS_B LemmasPRBS_C LemmasPRBS_D LemmasPRBS_E.
 Import ListNotations.
 Local Open Scope N_scope.
@@ -186,6 +187,20 @@ Print Assumptions c18_bert_frame_bits.
 (** instances: the repository's own test (1000 bits, errors at 499 and 510: locked, 1000 bits, 2 errors);
     a sparse pattern with 24 errors in a row (hypothesis of 7 satisfiable at the threshold) and the 25th unlocking *)
 Definition flip_at (l : list bool) (i : nat) : list bool := firstn i l ++ negb (nth i l false) :: skipn (S i) l.
+(** 11. the last clause of the property: BERT frames built from the generator (any phase g; frame j carries the j-th 197-bit
+        slice; any soft magnitudes 1..7), passed through the frame decoder (any decoder state, any buffer contents; uses
+        C01's round trip), with the decoded 25 bytes fed to the validator the way m17-demod's decode_bert does (24 bytes
+        MSB first, then the top five bits of the last byte), re-lock the validator within 27 bits with zero errors. *)
+Theorem c18_bert_frames_relock : forall (g : N) (ms : list (list Z)) (s : fd_state) (v : prbs),
+  fd_hid_ok s -> Forall mags_ok ms -> (1 <= length ms)%nat ->
+  synced v = false -> state v < 512 -> sync_count v <= 9 -> counters_wf v -> g < 512 ->
+  let fed := flat_map bert_fed_bits (bert_chain s (bert_frames g ms 0)) in
+  let v' := ImplPRBS.run v fed in
+  synced v' = true /\ err_count v' = err_count v /\ state v' = gen_state g (197 * length ms) /\
+  exists t, (1 <= t <= 27)%nat /\ (forall n, (n < t)%nat -> synced (ImplPRBS.run v (firstn n fed)) = false).
+Proof. exact bert_frames_relock. Qed.
+Print Assumptions c18_bert_frames_relock.
+
 Example c18_ex_repo_test :
   let v := run (prbs_new zero_history) (flip_at (flip_at (gen_bits 1 1000) 499) 510) in
   synced v = true /\ bit_count v = 1000 /\ err_count v = 2.
